@@ -285,6 +285,38 @@ def run(facts, res):
                                           "no longer yields the same revision for every identifier the system can print" % (fld, sorted(between)), fb.loc(st.line))
         res.instance("P3", "Revision::from: %d aggregates, every field filled from the regex group of the same name" % n, fb.loc())
         res.floor("P3", "Revision aggregates in the parser", n, 2)
+        # P3b: the parser accepts a tail only where Display prints one (index > 1).  Display drops the tail of a revision
+        # whose index is <= 1 while Eq / Hash compare it: an accepted text `1-d_t` denotes a revision that prints as `1-d`, is
+        # not the creation revision `1-d`, and whose children are named exactly like the children of `1-d` - one revision key,
+        # two recorded parents, first arrival wins (defect F20)
+        from ..census import atom_of
+        res.rule("P3", "parse is the inverse of print on everything the parser accepts: a tail is accepted only for index > 1")
+        nb = 0
+        for blk in fb.blocks:
+            for st in blk.stmts:
+                # the sites where the parser wraps the captured `tail` group in Some(..)
+                if not (st.kind == "assign" and st.rv.kind == "agg" and st.rv.j.get("variant") == "Some"):
+                    continue
+                tt = ("tuple", [du.operand_term(o, 14) for o in st.rv.operands()])
+                gs = [x[2] for c in walk(tt) if c[0] == "call" and callee_name(c) == "name" and len(c[2]) > 1
+                      for x in walk(c[2][1]) if x[0] == "const" and x[1] == "str"]
+                if "tail" not in gs:
+                    continue
+                nb += 1
+                ok = False
+                for l in lits_of(fb, blk.idx, facts):
+                    a = atom_of(l, fb)
+                    if a and a[0] == "lt":
+                        if (a[1] == "const:1" and a[3] is True) or (a[2] == "const:2" and a[3] is False):
+                            ok = True
+                res.instance("P3", "Revision::from: a tail is taken from the text only for index > 1: %s" % ok, fb.loc(st.line))
+                if not ok:
+                    res.violation("P3", "Revision::from|tail-accepted-for-first-revision",
+                                  "Revision::from accepts a tail for every index, Display prints it only for index > 1 while Eq/Hash compare it: the accepted "
+                                  "text `1-d_t` is a revision that prints as `1-d` but is not the creation revision; its children carry the identifiers of the "
+                                  "children of `1-d`, so one revision can be recorded with two parents and the first arrival wins (winner depends on arrival order)",
+                                  fb.loc(st.line))
+        res.floor("P3", "parser aggregates carrying a tail", nb, 1)
 
     # ------------------------------------------------------------------ P4
     eqb = facts.body("<revision::Revision as std::cmp::PartialEq>::eq")
